@@ -59,3 +59,39 @@ pub trait AtArgsRef {
     async fn a(&self, x: u8, y: u8) -> Vec<u8>;
     fn sync(&self, x: u8) -> u8;
 }
+
+// `async_trait` reached through a re-export (as web frameworks offer it): still the async_trait attribute
+pub mod framework {
+    pub use async_trait::async_trait;
+    pub mod nested {
+        pub use async_trait::async_trait as at_renamed_path;
+    }
+}
+#[entrait]
+#[framework::async_trait]
+pub trait ReexportedPlain {
+    async fn one(&self, a: u8) -> u8;
+}
+#[entrait(delegate_by = ref)]
+#[framework::async_trait]
+pub trait ReexportedRef {
+    async fn one(&self, a: u8) -> u8;
+}
+#[entrait(delegate_by = Borrow)]
+#[self::framework::async_trait]
+pub trait ReexportedBorrow {
+    async fn one(&self, a: u8) -> u8;
+}
+#[entrait(ReexportedTargetImpl, delegate_by = ref)]
+#[crate::c12_async_trait::framework::async_trait]
+pub trait ReexportedTarget {
+    async fn one(&self, a: u8) -> u8;
+}
+pub struct ReexportedTargetStruct;
+#[entrait(ref)]
+#[framework::async_trait]
+impl ReexportedTargetImpl for ReexportedTargetStruct {
+    async fn one<D>(deps: &D, a: u8) -> u8 {
+        a
+    }
+}
